@@ -38,27 +38,7 @@ def run(rep: core.Report):
     c13_abi.run(rep, an, tus)
     c13_bounds.run(rep, an, tus)
     c13_stride.run(rep, an, tus)
-    _r13i(rep)
 
-
-def _r13i(rep):
-    """'Every routine returns the same result as its reference': the kernels whose closed form is decided under the
-    property that owns their formula (Fourier sum C02, inverse transform C06, NAC terms C08, thermal reduction C10,
-    tetrahedron weights C11, derivative kernel C12) are decided here too, with the same rules, restricted to the
-    instances that live in the compiled sources."""
-    from rules import c02, c06, c08, c10, c11, c12
-
-    view = core.KernelView(rep, "R13i")
-    for mod in (c02, c06, c08, c10, c11, c12):
-        try:
-            mod.run(view)
-        except AnalysisError as e:
-            # an anchor of the other property's (possibly Python-side) rules is gone: that is that property's business;
-            # what its kernel rules produced up to here stands, the rest is listed as not decided
-            rep.unknown(f"R13i: {mod.__name__} stopped early: {str(e)[:160]}")
-    n = sum(1 for r in rep.rules if r.startswith("R13i."))
-    if n < 12:
-        raise AnalysisError(f"R13i: only {n} kernel rules of the other properties produced instances in the compiled sources")
 
 
 # ---------------------------------------------------------------------------
